@@ -133,6 +133,14 @@ Line ==
          s == HandleBatch(Cur, fs, 1, inc, e.now) IN
      /\ SetRef(s) /\ UNCHANGED cfgvars
      /\ mismatch' = Compare(e, Cur, s)
+  ELSE IF e.ev = "batchstart" THEN
+     \* one child dies while a sibling is busy; StartChild for the dead child arrives before the sibling lets the supervisor go on:
+     \* it is refused while a restart is in progress and starts the child if the supervisor had decided to leave it down
+     LET s1 == HandleBatch(Cur, e.faults, 1, inc, e.now)
+         i == e.faults[1][1]
+         s == IF s1.alive /\ ~s1.run[i] /\ ~s1.disabled[i] THEN [s1 EXCEPT !.run[i] = TRUE, !.inc[i] = @ + 1] ELSE s1
+     IN /\ SetRef(s) /\ UNCHANGED cfgvars
+        /\ mismatch' = Compare(e, Cur, s)
   ELSE IF e.ev = "startchild" THEN
      \* one more instance of the spec (refused while the spec is disabled)
      LET Freeslots == {j \in 1..n : ~run[j]}
